@@ -153,6 +153,8 @@ impl Array {
                     }
                 });
 
+                // the delta has the summed dimensions collapsed into one, so expand them again
+                let x = Array::from((target_clone.clone(), Rc::clone(&x.values)));
                 vec![Some(Array::sliced_op(
                     vec![&x],
                     &op,
